@@ -10,6 +10,8 @@ import PasfmtModel.Proofs.MachineCover
 import PasfmtModel.Proofs.Tree
 import PasfmtModel.Proofs.TreeSorted
 import PasfmtModel.Proofs.PassCover
+import PasfmtModel.Proofs.ConsolidatorsCdc
+import PasfmtModel.Proofs.ConsolidatorsGen
 
 namespace Pasfmt.C14
 
@@ -239,5 +241,69 @@ theorem file_lines_wellformed (kinds : List RawKind) (pass : List Nat) (hp : pas
     (s.lines.flatMap (·.tokens)).Nodup := by
   obtain ⟨h1, h2, h3⟩ := machine_lines_wellformed kinds pass (passes_sorted kinds pass hp) ops s h
   exact ⟨h1, fun l hl t ht => passes_in_range kinds pass hp t (h2 l hl t ht), h3⟩
+
+end Pasfmt.C14
+
+/-! ### the lines that line-based formatting sees: after the three post-parse consolidators
+
+The formatter does not work on the parser's lines directly: `DistinguishGenericTypeParamsConsolidator`,
+`ConditionalDirectiveConsolidator` and `DeindentPackageDirectives` run first (exact models in
+`Model/Consolidators.lean`, compared with the real stages on every case: fields `ck`, `cl`). -/
+
+namespace Pasfmt.C14
+
+/-- The conditional-directive consolidator keeps the lines well formed and loses no token: the number of lines
+    (hence every parent reference), parents and levels are unchanged; every line is still strictly increasing
+    and within the same bound; every token that was in some line is still in some line.  The hypotheses are
+    what the theorems above establish for the parser's lines: strictly increasing token lists, and
+    conditional-directive lines holding exactly their directive. -/
+theorem consolidator_keeps_lines_wellformed (kinds : List Kind) (lines : List Line)
+    (hs : ∀ l ∈ lines, l.tokens.Pairwise (· < ·))
+    (hc : ∀ l ∈ lines, l.ltype = .lConditionalDirective → ∃ t, l.tokens = [t]) :
+    let out := cdcConsolidate kinds lines
+    out.length = lines.length ∧
+    (∀ i (h1 : i < out.length) (h2 : i < lines.length), out[i].parent = lines[i].parent ∧ out[i].level = lines[i].level ∧
+        (out[i].ltype = lines[i].ltype ∨ out[i].ltype = .lVoided)) ∧
+    (∀ l ∈ out, l.tokens.Pairwise (· < ·)) ∧
+    (∀ n, (∀ l ∈ lines, ∀ t ∈ l.tokens, t < n) → ∀ l ∈ out, ∀ t ∈ l.tokens, t < n) ∧
+    (∀ t, (∃ l ∈ lines, t ∈ l.tokens) → ∃ l ∈ out, t ∈ l.tokens) :=
+  cdcConsolidate_wellformed kinds lines hs hc
+
+/-- a line the consolidator rewrites becomes the full range from its first to its last token (the merged
+    directives lie strictly inside) -/
+theorem expanded_line_is_a_range {kinds : Array Kind} {toks new dirs : List Nat} (hs : toks.Pairwise (· < ·))
+    (h : cdcExpand kinds toks = some (new, dirs)) :
+    ∃ first last, toks.head? = some first ∧ toks.getLast? = some last ∧ new = rangeIncl first last ∧
+      (∀ d ∈ dirs, first < d ∧ d < last) ∧ dirs ≠ [] :=
+  cdcExpand_range hs h
+
+/-- the generics consolidator keeps the token count and only retypes `<`/`>` as generic chevrons -/
+theorem generics_only_retypes_chevrons (kinds : List Kind) :
+    (genericsConsolidate kinds).length = kinds.length ∧
+    ∀ i (h1 : i < kinds.length) (h2 : i < (genericsConsolidate kinds).length),
+      ChevRel kinds[i] (genericsConsolidate kinds)[i] :=
+  genericsConsolidate_frame kinds
+
+/-- the package rule changes levels only -/
+theorem package_rule_changes_levels_only (kinds : List Kind) (lines : List Line) :
+    (deindentPackage kinds lines).length = lines.length ∧
+    ∀ i (h1 : i < (deindentPackage kinds lines).length) (h2 : i < lines.length),
+      (deindentPackage kinds lines)[i].tokens = lines[i].tokens ∧
+      (deindentPackage kinds lines)[i].parent = lines[i].parent ∧
+      (deindentPackage kinds lines)[i].ltype = lines[i].ltype :=
+  deindentPackage_frame kinds lines
+
+/-- non-vacuity: `Foo({$ifdef A} 1 {$else} 2 {$endif});` — the line 0 1 3 7 8 (the pass that takes the first
+    branch) is expanded to 0..8 and the three directive lines are voided -/
+example :
+    let kinds : List Kind := [.tIdentifier, .tOp .oLParen, .tConditionalDirective .dIfdef, .tNumberLiteral .nDecimal,
+      .tConditionalDirective .dElse, .tNumberLiteral .nDecimal, .tConditionalDirective .dEndif, .tOp .oRParen, .tOp .oSemicolon]
+    let lines : List Line := [
+      { parent := none, level := 0, tokens := [0, 1, 3, 7, 8], ltype := .lUnknown },
+      { parent := none, level := 0, tokens := [2], ltype := .lConditionalDirective },
+      { parent := none, level := 0, tokens := [4], ltype := .lConditionalDirective },
+      { parent := none, level := 0, tokens := [6], ltype := .lConditionalDirective }]
+    (cdcConsolidate kinds lines).map (·.tokens) = [[0, 1, 2, 3, 4, 5, 6, 7, 8], [], [], []] := by
+  decide
 
 end Pasfmt.C14
